@@ -355,3 +355,57 @@ class Ctx:
                   f"evaluations={cov['evaluations']} wall={ev['wall_s']}s", flush=True)
         self.cleanup()
         return rc
+
+
+def generic_replay(prop, path):
+    """./check Cxx --replay <file> for properties without a dedicated replay mode: (1) show what was recorded, (2) run every recorded
+    operation line through the Lean model driver and print what the model says next to what the real code had answered,
+    (3) re-run the check with the recorded seed and tier — every generator derives all its choices from VERIF_SEED, so the same
+    case is produced again on the current tree — and report whether the recorded signature (or any violation) occurs again.
+    Exit 1 if it does, 0 if not."""
+    import re
+    d = json.load(open(path))
+    sig = d.get("signature")
+    print(f"recorded: property={d.get('property')} signature={sig}\n  what: {str(d.get('what'))[:600]}")
+    lines = []
+
+    def collect(o):
+        if isinstance(o, dict):
+            for v in o.values():
+                collect(v)
+        elif isinstance(o, list):
+            for v in o:
+                collect(v)
+        elif isinstance(o, str) and re.match(r"^[a-z0-9]+ ", o) and len(o) < 200000 and not o.startswith(("the ", "a ", "an ")):
+            lines.append(o)
+    collect(d.get("replay"))
+    for b in d.get("broken", []):
+        m = re.search(r"op[s]?=([a-z0-9]+ .*?)(?: impl=| model=|$)", b.get("detail", ""))
+        if m:
+            lines.append(m.group(1).strip())
+    lines = [l for l in dict.fromkeys(lines)][:20]
+    if lines and os.path.exists(MODEL_EXE):
+        p = subprocess.run([MODEL_EXE], input="\n".join(lines) + "\n", capture_output=True, text=True, timeout=600)
+        for l, o in zip(lines, p.stdout.split("\n")):
+            if o != "bad-op":
+                print(f"op   : {l[:400]}\nmodel: {o[:400]}")
+    m = re.search(r"-(quick|thorough)-(\d+)-", os.path.basename(path))
+    tier, seed = (m.group(1), m.group(2)) if m else ("quick", "1")
+    print(f"re-running ./check {prop} {tier} with VERIF_SEED={seed} on the current tree …", flush=True)
+    env = dict(os.environ, VERIF_SEED=seed)
+    rc, out, _ = sh([os.path.join(VERIF, "check"), prop, tier], cwd=VERIF, env=env, timeout=7200)
+    vio = [l for l in out.split("\n") if l.startswith("VIOLATION") or l.startswith("KNOWN-FINDING")]
+    again = False
+    for l in out.split("\n"):
+        mm = re.search(r"replay=(\S+)", l)
+        if l.startswith("VIOLATION") and mm and os.path.exists(mm.group(1)):
+            try:
+                if sig is None or json.load(open(mm.group(1))).get("signature") == sig:
+                    again = True
+            except Exception:
+                pass
+    if sig and any(("[" + sig + "]") in l and "reproduced in this run" in l and "not reproduced" not in l for l in vio):
+        print("the recorded signature is a listed known finding and was reproduced in this run")
+    print("\n".join(vio[:12]))
+    print("REPRODUCED" if again else "not reproduced as an unlisted violation on the current tree")
+    return 1 if again else 0
